@@ -208,6 +208,8 @@ def run_harness(binp, suite, cases, workdir, timeout_ms=20000, shards=None, tag=
         if len(o) != len(chunks[i]):
             raise CheckError("harness returned %d results for %d cases" % (len(o), len(chunks[i])))
         for k, r in enumerate(o):
+            if isinstance(r, dict) and "head" not in r:
+                r["head"] = {}      # panicked / timed-out cases carry no head: readers may still ask r["head"].get(..)
             res[i + k * shards] = r
     return res
 
